@@ -52,7 +52,7 @@ class FakeDist:
     def pdf(self, x, *p):
         _count(self.key, self.node, 0)
         x, p1, p2 = self._a(x, p)
-        v = self.d["w0"] + x + B * p1 + B * B * p2
+        v = self.d["w0"] + np.abs(x) + B * np.abs(p1) + B * B * np.abs(p2)
         return np.where(self._zero(x, p1, p2), 0.0, v)
 
     def logpdf(self, x, *p):
@@ -377,7 +377,10 @@ def instantiate(rnd, params, args, names, mode):
                 else:
                     v = rnd.choice([0, -4, 12, 3])
             elif dist[n]["kind"] == "fake" or (needs_int(n) and rnd.random() < 0.9):
-                v = 4 * rnd.randint(-1, 4) if mode != "grad" else rnd.randint(-4, 16)
+                if mode != "grad":
+                    v = 4 * rnd.randint(-1, 4)
+                else:       # mostly off the integer points (where the zero sets live), so that whole stencils are inside
+                    v = rnd.randint(-4, 16) if rnd.random() < 0.3 else 4 * rnd.randint(-1, 3) + rnd.choice([1, 2, 2, 3])
             else:
                 a = [val.get(x["p"], 0) if x["t"] == "p" else x["c"] for x in args[n]]
                 loc = a[0] if len(a) >= 1 else 0
@@ -418,7 +421,7 @@ def instantiate(rnd, params, args, names, mode):
             nd, nrows = shape_choice()
             rows = [point() for _ in range(min(nrows, 3))]
             allint = all(v % 4 == 0 for r in rows for v in r)
-            sc["calls"].append(dict(op="grad", ndim=nd, rows=rows, hu=rnd.choice([0, 1, 2, 4]), form=rnd.choice(["array", "list"]),
+            sc["calls"].append(dict(op="grad", ndim=nd, rows=rows, hu=rnd.choice([0, 0, 1, 1, 2, 4]), form=rnd.choice(["array", "list"]),
                                     dtype="i" if (allint and rnd.random() < 0.5) else "f"))
             sc["calls"].append(dict(op="logpdf", ndim=nd, rows=rows, form="array", dtype="f"))
     else:
